@@ -222,6 +222,80 @@ impl Report {
     }
 }
 
+
+impl Report {
+    /// lossless JSON form, used to hand a partial report from a worker process to its parent
+    pub fn to_json(&self) -> Value {
+        json!({
+            "states": self.states, "transitions": self.transitions, "traces": self.traces,
+            "evaluations": self.evaluations, "distinct_nontrivial": self.distinct_nontrivial,
+            "rule": self.rule, "samples": self.samples, "exhaustive": self.exhaustive,
+            "bounds": self.bounds, "extra": self.extra,
+            "violations": self.violations.iter().map(|v| json!({"key": v.key, "what": v.what, "replay": v.replay})).collect::<Vec<_>>(),
+            "n_violations": self.n_violations, "assumptions": self.assumptions, "caps_hit": self.caps_hit,
+            "floors": self.floors.iter().map(|(n, m, f)| json!([n, m, f])).collect::<Vec<_>>(),
+            "max_depth": self.max_depth,
+        })
+    }
+
+    pub fn from_json(v: &Value) -> Option<Report> {
+        let strs = |x: &Value| -> Vec<String> { x.as_array().map(|a| a.iter().filter_map(|s| s.as_str().map(|s| s.to_string())).collect()).unwrap_or_default() };
+        Some(Report {
+            states: v["states"].as_u64()?,
+            transitions: v["transitions"].as_u64()?,
+            traces: v["traces"].as_u64()?,
+            evaluations: v["evaluations"].as_u64()?,
+            distinct_nontrivial: v["distinct_nontrivial"].as_u64()?,
+            rule: v["rule"].as_str()?.to_string(),
+            samples: v["samples"].as_array()?.clone(),
+            exhaustive: v["exhaustive"].as_bool()?,
+            bounds: v["bounds"].as_object()?.clone(),
+            extra: v["extra"].as_object()?.clone(),
+            violations: v["violations"].as_array()?.iter().filter_map(|x| Some(Violation { key: x["key"].as_str()?.to_string(), what: x["what"].as_str()?.to_string(), replay: x["replay"].clone() })).collect(),
+            n_violations: v["n_violations"].as_u64()?,
+            assumptions: strs(&v["assumptions"]),
+            caps_hit: strs(&v["caps_hit"]),
+            floors: v["floors"].as_array()?.iter().filter_map(|x| Some((x[0].as_str()?.to_string(), x[1].as_u64()?, x[2].as_u64()?))).collect(),
+            max_depth: v["max_depth"].as_u64()?,
+        })
+    }
+}
+
+/// directory for scratch files of worker processes (inside the harness's build directory)
+pub fn work_dir() -> std::path::PathBuf {
+    let root = std::env::var("VERIF_ROOT").map(std::path::PathBuf::from).unwrap_or_else(|_| std::env::current_dir().unwrap());
+    let d = root.join("mc").join("target").join("work");
+    let _ = std::fs::create_dir_all(&d);
+    d
+}
+
+/// run `mc __worker <kind> <input file>` as a child process and read the report it prints;
+/// Err = the worker did not deliver a report (crash, kill): a machinery failure, never a verdict
+pub fn run_worker(kind: &str, input: &Value, ctx: &Ctx, tag: &str, rss_cap_gib: f64) -> Result<Report, String> {
+    let exe = std::env::current_exe().map_err(|e| e.to_string())?;
+    let path = work_dir().join(format!("{}-{}-{}.json", std::process::id(), kind, tag));
+    std::fs::write(&path, serde_json::to_vec(input).map_err(|e| e.to_string())?).map_err(|e| e.to_string())?;
+    let remaining = ctx.wall_cap.checked_sub(ctx.start.elapsed()).map(|d| d.as_secs()).unwrap_or(0).max(1);
+    let out = std::process::Command::new(exe)
+        .arg("__worker")
+        .arg(kind)
+        .arg(&path)
+        .env("VERIF_TIER", ctx.tier.name())
+        .env("VERIF_SEED", format!("{}", ctx.seed as i64))
+        .env("VERIF_THREADS", "1")
+        .env("VERIF_WALL_CAP_S", format!("{}", remaining))
+        .env("VERIF_RSS_CAP_GIB", format!("{}", rss_cap_gib))
+        .output()
+        .map_err(|e| format!("cannot start worker: {}", e));
+    let _ = std::fs::remove_file(&path);
+    let out = out?;
+    if !out.status.success() {
+        return Err(format!("worker {} {} ended with {:?}: {}", kind, tag, out.status, String::from_utf8_lossy(&out.stderr).chars().take(300).collect::<String>()));
+    }
+    let v: Value = serde_json::from_slice(&out.stdout).map_err(|e| format!("worker {} {} printed no report: {}", kind, tag, e))?;
+    Report::from_json(&v).ok_or_else(|| format!("worker {} {} printed an incomplete report", kind, tag))
+}
+
 /// Run `f` over `items` on `threads` workers (each item is an independent configuration whose
 /// builders live and die inside `f`); partial reports are merged in item order.
 pub fn par_run<I: Send + Sync, F>(ctx: &Ctx, items: &[I], f: F) -> Report
